@@ -823,7 +823,48 @@ def _oracle_spelling(d):
             if da != db_:
                 return ('spelled-spec-tree-differs', {'doc': s, 'tolerant': tol, 'spelling': sp, 'spelled': da[:400],
                                                       'new': db_[:400]})
+            for tree in (A[1], B[1]):
+                bad = _legacy_view(tree, a)
+                if bad:
+                    return ('legacy-nodeoptarg-nodeargs-view-differs-from-arguments', dict(bad, doc=s, spelling=sp))
     return None
+
+
+def _legacy_view(nl, a):
+    """the pylatexenc-1 view (nodeoptarg, nodeargs) of every \\foo node is what the documentation says, computed from
+    the parsed arguments: stars skipped, then (optional argument, mandatory ones) if the rest is '[' followed by
+    '{'s only; (None, all arguments) otherwise"""
+    k = len(a) - len(a.lstrip('*'))
+    rest = a[k:]
+    optfirst = rest[:1] == '[' and set(rest[1:]) <= {'{'}
+
+    def walk(n):
+        kd = treedump.kind(n)
+        if kd is None:
+            return None
+        if kd == 'L':
+            for x in (n if isinstance(n, (list, tuple)) else n.nodelist):
+                r = walk(x)
+                if r:
+                    return r
+            return None
+        pa = getattr(n, 'nodeargd', None)
+        if kd == 'M' and n.macroname == 'foo' and pa is not None and len(pa.argnlist or []) == len(a):
+            al = list(pa.argnlist)
+            eo, ea = (al[k], al[k + 1:]) if optfirst else (None, al)
+            go, ga = n.nodeoptarg, list(n.nodeargs)
+            if go is not eo or len(ga) != len(ea) or any(x is not y for x, y in zip(ga, ea)):
+                return {'node': treedump.dump(n)[:200], 'argspec': a, 'nodeoptarg': treedump.dump(go)[:80] if go is not None else None,
+                        'nodeargs': [treedump.dump(x)[:60] if x is not None else None for x in ga]}
+        if pa is not None and pa.argnlist:
+            for x in pa.argnlist:
+                r = walk(x)
+                if r:
+                    return r
+        if hasattr(n, 'nodelist'):
+            return walk(n.nodelist)
+        return None
+    return walk(nl)
 
 
 def oracle(c):
